@@ -689,6 +689,71 @@ func runLinkRules(c *Ctx) {
 	if nLinks < 3 {
 		c.Violated("LINK", r.fname, "link stores", p.pos(fn.Pos()), fmt.Sprintf("only %d link stores found (trip->vehicle by id, vehicle->trip by id, and the id-less pair are expected)", nLinks))
 	}
+	// no pointer to an element of a slice that the loop still appends to is kept: a later append re-allocates the
+	// slice, the kept pointer then addresses a dead copy and a link written through it never reaches the result
+	for _, l := range r.loops {
+		for b := range l.Blocks {
+			for _, in := range b.Instrs {
+				ia, ok := in.(*ssa.IndexAddr)
+				if !ok {
+					continue
+				}
+				if _, isSlice := ia.X.Type().Underlying().(*types.Slice); !isSlice {
+					continue
+				}
+				grows := false
+				for b2 := range l.Blocks {
+					for _, in2 := range b2.Instrs {
+						if call, isCall := in2.(*ssa.Call); isCall && isBuiltin(call, "append") && types.Identical(call.Type(), ia.X.Type()) {
+							if sameSliceVar(call.Call.Args[0], ia.X, l) || sameSliceVar(call, ia.X, l) {
+								grows = true
+							}
+						}
+					}
+				}
+				if !grows {
+					continue
+				}
+				kept := ""
+				var seen = map[ssa.Value]bool{}
+				var esc func(v ssa.Value, d int)
+				esc = func(v ssa.Value, d int) {
+					if seen[v] || d > 6 || v.Referrers() == nil {
+						return
+					}
+					seen[v] = true
+					for _, ref := range *v.Referrers() {
+						switch x := ref.(type) {
+						case *ssa.Store:
+							if x.Val == v {
+								if _, isAlloc := x.Addr.(*ssa.Alloc); isAlloc {
+									esc(x.Addr, d+1) // a local variable holding the pointer: follow its loads
+								} else {
+									kept = p.ipos(x) + ": stored into " + describeAddr(x.Addr)
+								}
+							}
+						case *ssa.MapUpdate:
+							if x.Value == v {
+								kept = p.ipos(x) + ": kept in " + shortType(x.Map.Type())
+							}
+						case *ssa.Phi:
+							esc(x, d+1)
+						case *ssa.UnOp:
+							if x.Op == token.MUL {
+								if _, isPtr := x.Type().Underlying().(*types.Pointer); isPtr {
+									esc(x, d+1) // load of the variable that holds the pointer
+								}
+							}
+						}
+					}
+				}
+				esc(ia, 0)
+				if kept != "" {
+					c.Violated("LINK", r.fname, "pointer into a growing slice", p.ipos(ia), "the address of an element of a slice that the loop still appends to is kept ("+kept+"): after a later append the slice is re-allocated and the kept pointer no longer addresses the result's element")
+				}
+			}
+		}
+	}
 	// also in the entity parsers: no store to these fields other than literals
 	// L2: paired association tables
 	var tables []ssa.Value
@@ -962,4 +1027,35 @@ func sameMapAs(c *Ctx, v, target ssa.Value, d int) bool {
 		}
 	}
 	return true
+}
+
+// sameSliceVar: a and b are values of the same slice variable inside loop l (equal, or connected through the loop's
+// phis and append calls).
+func sameSliceVar(a, b ssa.Value, l *Loop) bool {
+	root := func(v ssa.Value) ssa.Value {
+		for i := 0; i < 12; i++ {
+			switch x := v.(type) {
+			case *ssa.Call:
+				if isBuiltin(x, "append") {
+					v = x.Call.Args[0]
+					continue
+				}
+			case *ssa.Phi:
+				return x
+			}
+			return v
+		}
+		return v
+	}
+	ra, rb := root(a), root(b)
+	if ra == rb {
+		return true
+	}
+	// two phis of the same variable (e.g. header phi and a join inside the body)
+	pa, oka := ra.(*ssa.Phi)
+	pb, okb := rb.(*ssa.Phi)
+	if oka && okb && pa.Comment != "" && pa.Comment == pb.Comment {
+		return true
+	}
+	return false
 }
